@@ -56,11 +56,22 @@ def random_input(rng, kind):
     return dict(name=diag, ns=ns), {"name": diag, "ns": ns}
 
 
+IFACES = {}
+
+
 def run_kind(kind, outdir, inp):
     """Run the real generator for an input produced by random_input (rebuilds the Interface deterministically)."""
     import random as _r
     if kind in ("py", "cs", "cpp"):
-        iface = kj.events_interface(_r.Random(inp["iface_seed"]), inp["table"], inp["lang"], inp.get("usertags"))
+        # "iface_table": the interface is that of another (earlier) table; "reuse_iface": the caller keeps ONE Interface object and hands
+        # it to every generation of the case (a build script that is edited and re-run inside one interpreter, a long-lived tool)
+        key = inp.get("reuse_iface")
+        if key is not None and key in IFACES:
+            iface = IFACES[key]
+        else:
+            iface = kj.events_interface(_r.Random(inp["iface_seed"]), inp.get("iface_table") or inp["table"], inp["lang"], inp.get("usertags"))
+            if key is not None:
+                IFACES[key] = iface
         return generate(kind, outdir, table=[list(r) for r in inp["table"]], iface=iface, name=inp["name"], copy_other=bool(inp.get("copy_other")))
     if kind == "proto":
         iface = kj.random_proto_interface(_r.Random(inp["iface_seed"]))
